@@ -73,7 +73,7 @@ Inductive mpc :=
 | MW_ret (k : cont)
 (* dispatch_sync_f / dispatch_async_and_wait_f from a thread other than the bound one *)
 | MS_aaw (q : Z)                         (* _dispatch_async_and_wait_recurse_one: load(dq_state, relaxed) *)
-| MS_fast (q : Z)                        (* _dispatch_queue_try_acquire_barrier_sync: rmw loop *)
+| MS_fast (q : Z)                        (* _dispatch_queue_try_acquire_barrier_sync: dq_items_tail ? else the rmw loop *)
 | MS_prep (q : Z)                        (* _dispatch_wait_prepare: rmw loop; then the context and its event are set up *)
 | MS_dec                                 (* _dispatch_thread_event_wait: dec(dte_value, acquire) *)
 | MS_load                                (* _dispatch_thread_event_wait_slow: load(dte_value, acquire) *)
@@ -334,9 +334,13 @@ Definition mstep (s : mst) (t : Z) : option mst :=
   (* ---- synchronous callers ---- *)
   | MS_aaw q => Some (set_mpc s t (MS_fast q))
   | MS_fast q =>
-      match f_dispatch_queue_try_acquire_barrier_sync_and_suspend 0 t 0 1 (st L) with
-      | NoCommit _ _ => Some (set_mpc s t (MS_prep q))
-      | _ => None                              (* the fast path of an ordinary lane: never on a thread-bound word *)
+      match lst L with
+      | [] =>
+          match f_dispatch_queue_try_acquire_barrier_sync_and_suspend 0 t 0 1 (st L) with
+          | NoCommit _ _ => Some (set_mpc s t (MS_prep q))
+          | _ => None                          (* the fast path of an ordinary lane: never on a thread-bound word *)
+          end
+      | _ => Some (set_mpc s t (MS_prep q))    (* dq_items_tail != NULL: the fast path does not overtake queued items *)
       end
   | MS_prep q =>
       match wait_prepare_loop 0 (st L) with
